@@ -47,11 +47,17 @@ structure DState where
   jIdx : Nat := 0
   jFwd : List Delta := []
   jDiverged : Bool := false
+  /-- every source index the implementation ever reported as applied on the target -/
+  jApplied : List Nat := []
 
 def keys : List Nat := [1, 2, 3, 4]
 
 def sortNat (xs : List Nat) : List Nat :=
   xs.foldr (fun x acc => (acc.filter (· < x)) ++ [x] ++ (acc.filter (fun y => !(y < x)))) []
+
+def dedupNat : List Nat → List Nat
+  | a :: b :: rest => if a == b then dedupNat (b :: rest) else a :: dedupNat (b :: rest)
+  | l => l
 
 def fmtKV (m : KV) : String :=
   let parts := keys.filterMap (fun k => (get m k).map (fun v => s!"{k}={v}"))
@@ -73,9 +79,13 @@ def num (s : String) (max : Nat) : Option Nat :=
   | some n => if n ≤ max && !(s.length > 1 && s.startsWith "0") then some n else none
   | none => none
 
+/-- one command of a multi-command source batch -/
+inductive SItem
+  | f | w (k v : Nat) | a (i : Nat)
+
 inductive Op
   | w (k v : Nat) (drop : Bool) | wt (k v : Nat) | start | snap | dl (is : List Nat) (fromOutbox : Bool) (stalePos : Option Nat)
-  | fence | ack (i : Nat) | ackc (i : Nat) | switch | rt | rs
+  | fence | ack (i : Nat) | ackc (i : Nat) | switch | rt | rs | snap2 | cl (i : Nat) | sb (items : List SItem)
 
 def idxList (rest : List String) : Option (List Nat) :=
   if rest.isEmpty || rest.length > 4 then none
@@ -99,6 +109,18 @@ def parseOp (op : String) : Option Op :=
   | ["switch"] => some .switch
   | ["rt"] => some .rt
   | ["rs"] => some .rs
+  | ["snap2"] => some .snap2
+  | ["cl", i] => (num i 1048576).map Op.cl
+  | "sb" :: rest =>
+    if rest.length < 2 || rest.length > 5 then none
+    else
+      let items := rest.filterMap (fun it =>
+        if it == "f" then some SItem.f
+        else match it.splitOn "." with
+          | ["w", k, v] => do let k ← num k 4; let v ← num v 1048576; if k == 0 then none else pure (SItem.w k v)
+          | ["a", i] => (num i 1048576).map SItem.a
+          | _ => none)
+      if items.length == rest.length then some (.sb items) else none
   | _ => none
 
 def addFwd (y : Sys) (d : Option Delta) (drop : Bool := false) : Sys :=
@@ -151,6 +173,32 @@ def stepOp (y : Sys) : Op → Sys × String
     else ({ y with switched := true, s := { y.s with owned := false, started := false }, t := { y.t with owned := true } }, "ok")
   | .rt => (y, "ok")
   | .rs => (y, "ok")
+  | .snap2 =>
+    if !y.snapDone || y.switched then (y, "skip")
+    else ({ y with t := y.t.importSnapshot y.s }, "ok")
+  | .cl i =>
+    if !y.switched then ({ y with s := { y.s with idx := y.s.idx + 1 } }, "skip")
+    else let r := y.s.cleanup i; ({ y with s := r.1 }, r.2)
+  | .sb items =>
+    let bump : Sys := { y with s := { y.s with idx := y.s.idx + items.length } }
+    if items.any (fun it => match it with | .a i => !y.delivered.any (· == i) | _ => false) then (bump, "skip")
+    else
+      -- one ApplyBatch: the commands see each other's staged migration state, so it is the sequential fold;
+      -- any command error aborts the whole batch (nothing committed)
+      let (y', rs) := items.foldl (fun (acc : Sys × List String) it =>
+        let (z, rs) := acc
+        match it with
+        | .f =>
+          let r := z.s.fence
+          let z' := addFwd { z with s := r.1 } r.2.2
+          ({ z' with fencedSeen := z'.fencedSeen || r.2.1 == "ok" }, rs ++ [r.2.1])
+        | .w k v =>
+          let r := z.s.write k v
+          (addFwd { z with s := r.1 } r.2.2, rs ++ [r.2.1])
+        | .a i => let r := z.s.ackCmd i; ({ z with s := r.1 }, rs ++ [r.2])) (y, [])
+      match rs.find? (fun r => r.startsWith "err") with
+      | some e => (bump, e)
+      | none => (y', ",".intercalate rs)
 
 def parseKV (s : String) : Option KV :=
   if s == "-" then some []
@@ -237,11 +285,11 @@ def judge (d : DState) (op : Op) (res : String) (o : Obs) : String × DState :=
           | some (k, v) =>
             let r := fresh.any (fun p => p.2 == k && p.1 > x.idx)
             (put k v m, x.idx :: seen, (x.idx, k) :: fresh, reord || r)
-          | none => (m, x.idx :: seen, fresh, reord)) (pre.tdata, pre.ad, d.jFresh, d.jReordered)
+          | none => (m, x.idx :: seen, fresh, reord)) (pre.tdata, pre.ad ++ d.jApplied, d.jFresh, d.jReordered)
       let d := { d with jFresh := fresh, jReordered := reord }
       if ds.length != is.length then ("viol:unknown-delta-accepted", d)
       else if !kvEq o.tdata expect then ("viol:delta-not-exactly-once", d)
-      else if !(sortNat o.ad == sortNat seen) then ("viol:applied-record-mismatch", d)
+      else if !(dedupNat (sortNat o.ad) == dedupNat (sortNat seen)) then ("viol:applied-record-mismatch", d)
       else if d.jSwitched then diverge d o.tdata
       else ("ok", d)
   | .switch =>
@@ -254,6 +302,37 @@ def judge (d : DState) (op : Op) (res : String) (o : Obs) : String × DState :=
     if pre.ob.any (fun x => x != i && !o.ob.any (· == x)) then ("viol:ack-removed-other-outbox-row", d)
     else if !kvEq o.tdata pre.tdata || !kvEq o.sdata pre.sdata then ("viol:ack-changed-data", d)
     else ("ok", d)
+  | .snap2 =>
+    -- a re-installed snapshot must keep the durable applied-delta records (else old deltas are re-applied)
+    if res == "ok" && !(sortNat o.ad == sortNat pre.ad) then ("viol:snapshot-install-lost-applied-records", d) else ("ok", d)
+  | .cl _ => ("ok", { d with jIdx := d.jIdx + 1 })
+  | .sb items =>
+    let base := d.jIdx
+    let d := { d with jIdx := base + items.length }
+    if res == "skip" || res.startsWith "err" then
+      (if kvEq o.sdata pre.sdata then "ok" else "viol:refused-batch-changed-source", d)
+    else
+      let rs := res.splitOn ","
+      -- walk the batch: a write answered ok after the fence (already durable, or entered earlier in this batch) is a violation
+      let (d, v, _, _) := (items.zip rs).foldl (fun (acc : DState × String × Bool × Nat) (p : SItem × String) =>
+        let (d, v, fenced, n) := acc
+        let idx := base + n + 1
+        match p.1 with
+        | .f => (if p.2 == "ok" && !fenced then { d with jFwd := d.jFwd ++ [⟨idx, none⟩] } else d, v, fenced || p.2 == "ok", n + 1)
+        | .w k w' =>
+          if p.2 == "ok" then
+            let d := { d with ref := put k w' d.ref, jFwd := if d.jStarted then d.jFwd ++ [⟨idx, some (k, w')⟩] else d.jFwd }
+            let v := if v != "ok" then v
+                     else if fenced then "viol:fenced-write-accepted"
+                     else if d.jStarted && !o.ob.any (· == idx) then "viol:write-not-outboxed"
+                     else v
+            (d, v, fenced, n + 1)
+          else (d, v, fenced, n + 1)
+        | .a _ => (d, v, fenced, n + 1)) (d, "ok", fenceOf pre.st != 0, 0)
+      let hadFence := (items.zip rs).any (fun p => match p.1 with | .f => p.2 == "ok" | _ => false)
+      if v != "ok" then (v, d)
+      else if hadFence && fenceOf o.st == 0 then ("viol:fence-lost", d)
+      else ("ok", d)
   | .rt | .rs =>
     (if kvEq o.tdata pre.tdata && kvEq o.sdata pre.sdata && sortNat o.ad == sortNat pre.ad then "ok" else "viol:restart-changed-durable-state", d)
   | _ => ("ok", d)
@@ -269,7 +348,7 @@ def step (d : DState) (op impl : String) : DState × String × String :=
     | none => ({ d with m := m' }, mout, "viol:unparseable-output")
     | some obs =>
       let (verdict, d') := judge d o ires obs
-      ({ d' with m := m', prev := some obs }, mout, verdict)
+      ({ d' with m := m', prev := some obs, jApplied := obs.ad ++ d'.jApplied.filter (fun i => !obs.ad.any (· == i)) }, mout, verdict)
 
 end WK.C39.Drv
 
